@@ -91,3 +91,20 @@ Theorem init_tail_when_on : forall s thr t, run s = true -> (forall v, In v (t_v
   run_init_tail s thr t = (map IVal (t_validated t) ++ rest_of_init t, true).
 Proof. exact init_tail_on_all_l. Qed.
 Print Assumptions init_tail_when_on.
+
+(** Creating a manager object ahead of use does nothing to the switch: the state restored on exit is
+    the one in effect when the block is ENTERED, whenever the object was created. *)
+Theorem creating_a_manager_is_no_operation : forall s, xstep s XCreate = (s, Done).
+Proof. exact create_noop_l. Qed.
+Print Assumptions creating_a_manager_is_no_operation.
+
+Theorem creation_steps_are_immaterial : forall ops s, final_xstate s (erase_creates ops) = final_xstate s ops.
+Proof. exact erase_creates_state_l. Qed.
+Print Assumptions creation_steps_are_immaterial.
+
+(** The decorator form: the decorated function runs with validators disabled and the state it was
+    called in is back afterwards. *)
+Theorem decorated_call_restores : forall s,
+  fst (xstep s XCallDecorated) = s /\ snd (xstep s XCallDecorated) = Done /\ inside_decorated s = false.
+Proof. exact call_decorated_restores_l. Qed.
+Print Assumptions decorated_call_restores.
